@@ -146,6 +146,15 @@ namespace Track
   enum class DecodeState { LookingForAddress, LookingForRecord };
   Sector sec;
   int sec_size;
+  // A floppy disc controller only accepts a data address mark which
+  // closely follows the ID field (in single density, within 30 bytes
+  // of it).  A mark found further on belongs to a later sector, whose
+  // own ID field we would have skipped over: pairing it with the ID
+  // we hold would return that sector's data under the wrong address.
+  // An FM-encoded byte occupies 16 bits; the extra byte is for the
+  // mark itself.
+  constexpr size_t max_bits_from_id_to_data_mark = (30u + 1u) * 16u;
+  size_t id_end = 0;
   enum DecodeState state = DecodeState::LookingForAddress;
   while (thisbit < bits_avail)
     {
@@ -230,6 +239,7 @@ namespace Track
 	    }
 	  // id[5] and id[6] are the CRC bytes, and these already got
 	  // included in our evaluation of addr_crc.
+	  id_end = thisbit;
 	  state = DecodeState::LookingForRecord;
 	}
       else if (state == DecodeState::LookingForRecord)
@@ -237,6 +247,19 @@ namespace Track
 	  std::optional<unsigned int> found = find_record_address_mark();
 	  if (!found)
 	    break;
+	  if (thisbit - id_end > max_bits_from_id_to_data_mark)
+	    {
+	      if (verbose)
+		{
+		  std::cerr << "No data address mark follows the ID of sector "
+			    << sec.address << "; dropping the sector\n";
+		}
+	      // Resume the search for an ID just after the one we are
+	      // abandoning, so that the next sector is not lost too.
+	      thisbit = id_end;
+	      state = DecodeState::LookingForAddress;
+	      continue;
+	    }
 	  const bool discard_record = *found == 0xF56A;
 	  if (verbose)
 	    {
